@@ -191,6 +191,21 @@ def h_concat(ctx, cfg):
     for j, (c, vals, _) in enumerate(want):
         if j < len(cat.thetas):
             _same_theta(ctx, cat.get_theta(j), vals, "concat position %d is chain-major (all of the first file in step order, then the next)" % j)
+    # the per-chain collections are not modified by being concatenated, so concatenating them again gives the same
+    for pos, c in enumerate(order):
+        ctx.prove(len(loaded[pos].thetas) == lens[c] and loaded[pos].n_thetas == lens[c] and loaded[pos].is_complete,
+                  "a per-chain collection still has exactly its own samples after being concatenated", key="concat modified its operand")
+        try:
+            loaded[pos].get_theta(lens[c])
+            ctx.fail("out-of-range access accepted on a per-chain collection after concat", key="concat modified its operand")
+        except ValueError:
+            ctx.prove(True, "out-of-range access is still refused after concat")
+    again = core.ThetaHolder.concat(loaded)
+    ctx.prove(len(again.thetas) == sum(lens) and again.n_thetas == sum(lens), "concatenating the same collections again gives the same number of samples",
+              key="second concat differs")
+    for j, (c, vals, _) in enumerate(want):
+        if j < len(again.thetas):
+            _same_theta(ctx, again.get_theta(j), vals, "second concat, position %d" % j)
     return order
 
 
